@@ -117,6 +117,38 @@ fn setup_survivor(d: &Domain, scenario: &str) -> Result<Survivor, Failure> {
     }
 }
 
+/// orderly shutdown of the survivor in reverse creation order (ports, service, node); other
+/// orders are C17's subject
+fn drop_survivor(s: Survivor) {
+    match s {
+        Survivor::None => {}
+        Survivor::PubSub { node, svc, publisher, subscriber } => {
+            drop(subscriber);
+            drop(publisher);
+            drop(svc);
+            drop(node);
+        }
+        Survivor::Event { node, svc, notifier, listener } => {
+            drop(listener);
+            drop(notifier);
+            drop(svc);
+            drop(node);
+        }
+        Survivor::ReqRes { node, svc, client, server } => {
+            drop(server);
+            drop(client);
+            drop(svc);
+            drop(node);
+        }
+        Survivor::Blackboard { node, svc, writer, reader } => {
+            drop(reader);
+            drop(writer);
+            drop(svc);
+            drop(node);
+        }
+    }
+}
+
 fn survivor_node_id(s: &Survivor) -> Option<u128> {
     match s {
         Survivor::None => None,
@@ -398,26 +430,61 @@ fn run_case_in(d: &Domain, c: &CrashCase, phase: &str, obs: &mut Obs) -> Result<
         ensure!(Some(*a) == own, "survivor.dead_node_reported_alive", "node {a} reported alive after cleanup");
     }
     survivor_probe(&survivor, &c.scenario)?;
-    drop(survivor);
+    drop_survivor(survivor);
     // ---- nothing of the dead node remains ----
     let left = d.leftovers();
     if !left.is_empty() {
-        if only_unlisted_node_remnants(&left) {
+        let modes: Vec<String> = left
+            .iter()
+            .filter(|l| l.starts_with("/dev/shm/"))
+            .map(|l| {
+                use std::os::unix::fs::PermissionsExt;
+                std::fs::metadata(l).map(|m| format!("{:o}/{}B", m.permissions().mode() & 0o777, m.len())).unwrap_or_default()
+            })
+            .collect();
+        let left: Vec<String> = left.into_iter().chain(std::iter::once(format!("(phase {phase}; shm modes {modes:?})"))).collect();
+        let left = &left[..];
+        let left_files = &left[..left.len() - 1];
+        if only_unlisted_node_remnants(left_files) {
             fail!("leftover.node_died_before_monitor_token", "node directory/details/monitor context of a node that died before its monitoring token existed stay behind: {left:?}");
         }
         {
             use std::os::unix::fs::PermissionsExt;
             let half_created = |l: &String| l.starts_with("/dev/shm/") && std::fs::metadata(l).map(|m| m.permissions().mode() & 0o400 == 0).unwrap_or(false);
-            if (phase == "port_create" || phase == "messages") && left.iter().all(half_created) {
+            if (phase == "port_create" || phase == "messages") && left_files.iter().all(half_created) {
                 fail!("leftover.half_created_dynamic_storage_of_dead_port", "the victim died while one of its ports was creating a shared-memory object (still in its write-only initialisation state); the dead-node cleanup cannot open it and leaves it behind: {left:?}");
             }
         }
-        if phase == "service_drop" && left.iter().any(|l| l.ends_with(".service")) && left.iter().all(|l| l.starts_with("services/") || l.starts_with("/dev/shm/")) {
+        if phase == "service_drop" && left_files.iter().any(|l| l.ends_with(".service")) && left_files.iter().all(|l| l.starts_with("services/") || l.starts_with("/dev/shm/")) {
             fail!("leftover.service_orphaned_by_crash_after_service_tag_removal", "the victim died while dropping the last handle of a service: it removes its service tag first and the service's resources afterwards, so the dead-node cleanup (which walks the tags) no longer knows about the service and its resources stay for ever: {left:?}");
         }
-        if left.len() == 1 && left[0].starts_with("services/") && left[0].ends_with(".service") && c.kind == "syscall" {
+        if left_files.len() == 1 && left_files[0].starts_with("services/") && left_files[0].ends_with(".service") && c.kind == "syscall" {
             // which phase did the victim die in? (the reference run of this scenario tells)
             fail!("leftover.service_static_config_locked_by_dead_creator", "the static config of a service whose creator died before unlocking it stays behind in locked state; the dead-node cleanup treats it as a non-existing service and removes only the service tag: {left:?}");
+        }
+        {
+            // generic classification: (phase the victim died in, kinds of resources that stay)
+            let mut kinds: Vec<String> = left_files
+                .iter()
+                .map(|l| {
+                    let name = l.rsplit('/').next().unwrap_or(l);
+                    match name.rsplit_once('.') {
+                        Some((_, ext)) if !ext.chars().all(|c| c.is_ascii_digit()) => ext.to_string(),
+                        _ => {
+                            if l.starts_with("nodes/") {
+                                "node_dir".to_string()
+                            } else {
+                                "other".to_string()
+                            }
+                        }
+                    }
+                })
+                .collect();
+            kinds.sort();
+            kinds.dedup();
+            if !phase.is_empty() {
+                fail!(format!("leftover.{}.{}", phase, kinds.join("+")), "resources remain after the dead node was cleaned up and the survivor dropped everything: {left:?}");
+            }
         }
         fail!("leftover.after_cleanup", "resources remain after the dead node was cleaned up and the survivor dropped everything: {left:?}");
     }
@@ -436,7 +503,7 @@ fn reference_steps(scenario: &str) -> Result<Vec<vtrace::Step>, String> {
     d.config.global.creation_timeout = core::time::Duration::from_millis(100);
     let survivor = setup_survivor(&d, scenario).map_err(|e| e.message)?;
     let r = vtrace::reference_run(&exe(), &child_args(&d, scenario), &[]);
-    drop(survivor);
+    drop_survivor(survivor);
     d.cleanup();
     r
 }
@@ -446,7 +513,7 @@ fn atomic_count(scenario: &str) -> Result<u64, String> {
     d.config.global.creation_timeout = core::time::Duration::from_millis(100);
     let survivor = setup_survivor(&d, scenario).map_err(|e| e.message)?;
     let r = vice::vcrash::run_atomic(&child_args(&d, scenario), None).map(|(_, n)| n);
-    drop(survivor);
+    drop_survivor(survivor);
     d.cleanup();
     r
 }
@@ -460,10 +527,24 @@ fn exec(ctx: &mut Ctx, part: &str, c: &CrashCase) {
             ctx.class("hang_not_reproduced", 1);
             obs = obs2;
             r = r2;
+        } else if let (Err(f1), Err(f2)) = (&r, &r2) {
+            // both attempts ran out of time. While the case process merely waits for its traced
+            // child (wchan=do_wait) the machine is just slow (a ptrace stop costs two context
+            // switches on a contended CPU): inconclusive, not a violation. A survivor call that
+            // does not return shows the case process itself sleeping or running.
+            if f1.message.contains("wchan=do_wait") || f2.message.contains("wchan=do_wait") {
+                r = Err(Failure::new("harness.slow", format!("case exceeded its time limit twice while waiting for the traced child: {}", f2.message)));
+            }
         }
     }
     ctx.record(part, vcore::rng::hash_str(&format!("{c:?}")), &obs, || serde_json::to_value(c).unwrap());
     if let Err(f) = r {
+        if f.signature == "harness.slow" {
+            // counted as a discarded case (more than 1 % of them make the run inconclusive)
+            ctx.class("case_discarded_slow_machine", 1);
+            ctx.count_discarded();
+            return;
+        }
         if f.signature.starts_with("harness.") {
             ctx.inconclusive(format!("{}: {}", f.signature, f.message));
             return;
